@@ -16,12 +16,20 @@
        engine on its meta-grammar, then its visitor) succeeds, for all sufficiently large fuel, with registry R' if and
        only if the specification route (spec reader, then Registry.define_rules) yields R'.  The two routes define
        the same rule objects with the same parser objects, created in the same order.
+     - and in the property's own form (RenderSpec.v: a declarative relation "text s is a rendering of the rule list rs"
+       with exactly the freedom RFC 5234 / 7405 give: white space, comments, continuation lines, blank lines, the five
+       repeat forms with leading zeros, %b/%d/%x in either marker case with leading zeros and either digit case, dotted
+       series, ranges, "..." / %i"..." / %s"...", groups, options, <rulename>; RenderProof1-5: the spec reader inverts
+       EVERY rendering, every normal syntax has a rendering, and the reader returns only normal syntax):
+       THEOREM C04_every_rendering: for every rule list rs and every rendering s of it, the library route on s yields
+       exactly Registry.define_rules c rs.
    The theorems named C04_partial_... predate this and are kept: they hold for every tree on which the visitor is defined,
    a superset of the derivation trees. *)
 From Coq Require Import String Ascii List NArith.
 Import ListNotations.
 From ABNF Require Import Base Engine Spec AbnfRead Registry GenTypes Visit Visitor VisitorProps Tables Compile
-     Bundled RegistryProps ReaderDeriv1 ReaderDeriv ReaderDerivE2E ReaderComplete1 ReaderComplete2.
+     Bundled RegistryProps ReaderDeriv1 ReaderDeriv ReaderDerivE2E ReaderComplete1 ReaderComplete2
+     RenderSpec RenderProof3 RenderProof4 RenderProof5 RenderExamples L_C04.
 Open Scope string_scope.
 
 Theorem C04_partial_visitor_is_compile : forall c n R a,
@@ -133,11 +141,52 @@ Print Assumptions C04_reader_accepts_exactly_the_meta_grammar.
 
 (* not vacuous, through the theorem: a text with comments, continuation lines and =/ is accepted by both routes with the
    same registry; a text that extends an undefined rule is rejected by both *)
-Example C04_nonvacuous_accept : exists R', load_grammar 2%N ex_text2 false (r_boot tt) = Some R' /\
-  exists fuel, forall f, fuel <= f -> lib_load_grammar f 2%N ex_text2 false (r_boot tt) = LOk R'.
+Example C04_nonvacuous_accept : exists R', load_grammar 2%N ReaderComplete2.ex_text2 false (r_boot tt) = Some R' /\
+  exists fuel, forall f, fuel <= f -> lib_load_grammar f 2%N ReaderComplete2.ex_text2 false (r_boot tt) = LOk R'.
 Proof. exact ex_C04. Qed.
 Example C04_nonvacuous_reject :
-  load_grammar 2%N ex_text false (r_boot tt) = None /\
-  lib_load_grammar 150 2%N ex_text false (r_boot tt) = LOther /\
-  forall fuel R', lib_load_grammar fuel 2%N ex_text false (r_boot tt) <> LOk R'.
+  load_grammar 2%N ReaderDeriv.ex_text false (r_boot tt) = None /\
+  lib_load_grammar 150 2%N ReaderDeriv.ex_text false (r_boot tt) = LOther /\
+  forall fuel R', lib_load_grammar fuel 2%N ReaderDeriv.ex_text false (r_boot tt) <> LOk R'.
 Proof. exact ex_text_rejected_by_both. Qed.
+
+(* ---- the property's own form: every rendering of every syntax ---------------------------------------------------- *)
+Theorem C04_every_rendering : forall rs s c R R', boot_ok R -> renders_rulelist rs s ->
+  (define_rules c rs R = Some R' <->
+   exists fuel, forall f, fuel <= f -> lib_load_grammar f c s false R = LOk R').
+Proof. exact c04_rendering_load. Qed.
+Print Assumptions C04_every_rendering.
+
+Theorem C04_every_rendering_strict : forall rs t c R R', boot_ok R -> renders_rulelist rs (normalise t) ->
+  (define_rules c rs R = Some R' <->
+   exists fuel, forall f, fuel <= f -> lib_load_grammar f c t true R = LOk R').
+Proof. exact c04_rendering_load_strict. Qed.
+Print Assumptions C04_every_rendering_strict.
+
+Theorem C04_every_rendering_create : forall a t c R R', boot_ok R -> renders_rule a (ensure_crlf t) ->
+  (define_rule c a R = Some R' <-> exists fuel, lib_create fuel c t R = LOk R').
+Proof. exact c04_rendering_create. Qed.
+Print Assumptions C04_every_rendering_create.
+
+Theorem C04_layout_independent : forall rs s1 s2 c R f1 f2 R1 R2, boot_ok R ->
+  renders_rulelist rs s1 -> renders_rulelist rs s2 ->
+  lib_load_grammar f1 c s1 false R = LOk R1 -> lib_load_grammar f2 c s2 false R = LOk R2 -> R1 = R2.
+Proof. exact c04_layout_independent. Qed.
+Print Assumptions C04_layout_independent.
+
+(* the rendering relation is neither empty nor too small: every syntax the reader can return has a rendering, the reader
+   returns exactly the normal syntax, and a text renders at most one rule list *)
+Theorem C04_renderings_exist : forall rs, Forall normal_rule rs -> renders_rulelist rs (print_rulelist rs).
+Proof. exact print_rulelist_renders. Qed.
+Theorem C04_reader_range : forall rs, Forall normal_rule rs <-> exists s, read_rulelist s = Some rs.
+Proof. exact normal_rules_exact. Qed.
+Theorem C04_rendering_functional : forall rs1 rs2 s, renders_rulelist rs1 s -> renders_rulelist rs2 s -> rs1 = rs2.
+Proof. exact renders_rulelist_functional. Qed.
+Print Assumptions C04_renderings_exist.
+Print Assumptions C04_reader_range.
+Print Assumptions C04_rendering_functional.
+
+(* two very different texts (comments, continuation lines, leading zeros, radix, marker case, group, blank line) render the
+   same two rules *)
+Example C04_two_renderings : renders_rulelist ex_rs RenderExamples.ex_text1 /\ renders_rulelist ex_rs RenderExamples.ex_text2 /\ RenderExamples.ex_text1 <> RenderExamples.ex_text2.
+Proof. split; [exact ex_render1|]. split; [exact ex_render2|]. vm_compute. discriminate. Qed.
